@@ -1,7 +1,18 @@
 import functools
-from typing import Any, Callable, Generator, Iterable, Iterator, MutableMapping, Tuple
+from typing import (
+    Any,
+    Callable,
+    Generator,
+    Iterable,
+    Iterator,
+    List,
+    MutableMapping,
+    Sequence,
+    Tuple,
+)
 
 from ..datastructures import Headers
+from ..responses import unfold_header_lines
 from ..typing import Environ, StartResponse, WSGIApp
 from .requests import Request
 from .responses import Response, StreamingResponse
@@ -33,6 +44,12 @@ class NextResponse(StreamingResponse):
     This is a response object for middleware.
     """
 
+    # the header lines of the application, as they were before `Headers` folded them
+    raw_headers: Sequence[Tuple[str, str]] = ()
+
+    def header_lines(self) -> Iterable[Tuple[str, str]]:
+        return unfold_header_lines(self.headers, self.raw_headers)
+
     def render_stream(self) -> Generator[bytes, None, None]:
         yield from self.iterable
 
@@ -42,18 +59,20 @@ class NextResponse(StreamingResponse):
         This is a helper method to convert a WSGI application into a NextResponse object.
         """
         status_code = 200
-        headers: Headers = Headers()
+        raw_headers: List[Tuple[str, str]] = []
 
         def start_response(
             status: str, response_headers: Iterable[Tuple[str, str]], exc_info=None
         ) -> None:
             nonlocal status_code
-            nonlocal headers
+            nonlocal raw_headers
             status_code = int(status.split(" ")[0])
-            headers = Headers(response_headers)
+            raw_headers = list(response_headers)
 
         body = ensure_next(app(request, start_response))
-        return NextResponse(body, status_code, headers)
+        response = NextResponse(body, status_code, Headers(raw_headers))
+        response.raw_headers = raw_headers
+        return response
 
 
 def middleware(
